@@ -464,6 +464,144 @@ func c09shiftModel(cc *Ctx, rule, ruleState string) {
 	} else {
 		c.OK(rule, cons, pos, "geodetic → geocentric with the source datum, then exactly from₃(to₇(·)) as a rational term, then geocentric → geodetic with the destination datum; all three ordinates travel through")
 	}
+	// ---- the closed-form conversion.  Of the conversions, the one from geodetic to geocentric
+	// coordinates has no iteration: evaluated on a symbolic (λ, φ, h) it must be, term for term,
+	//   N = a / sqrt(1 − e²·sin²φ),  X = (N + h)·cosφ·cosλ,  Y = (N + h)·cosφ·sinλ,  Z = (N·(1 − e²) + h)·sinφ
+	// with a and e² the datum's own.  (The way back is iterative and is not compared.)
+	{
+		var convFns []*types.Func
+		for f := range conv {
+			convFns = append(convFns, f)
+		}
+		sort.Slice(convFns, func(i, j int) bool { return cc.P.FuncName(convFns[i]) < cc.P.FuncName(convFns[j]) })
+		aP, okA := symOf(d3.fields["a"])
+		esP, okE := symOf(d3.fields["es"])
+		closed := 0
+		convStub := m.it.stub
+		m.it.stub = inner // the conversions interpreted, not named
+		for _, f := range convFns {
+			if len(steps) == 0 || steps[0].fn != f {
+				continue // only the conversion the shift starts with (geodetic → geocentric)
+			}
+			sf := conv[f]
+			loops := false
+			ast.Inspect(cc.P.Decl(f).Body, func(n ast.Node) bool {
+				switch n.(type) {
+				case *ast.ForStmt, *ast.RangeStmt:
+					loops = true
+				}
+				return !loops
+			})
+			if loops {
+				continue // the iterative way back
+			}
+			lam, phi, hh := polyVar("lam"), polyVar("phi"), polyVar("hh")
+			res, why := callOn(sf, d3, lam, phi, hh)
+			if why != "" || !okA || !okE {
+				continue // iterative (the way back), or a datum whose fields have other names
+			}
+			closed++
+			cons := cc.P.FuncName(f) + "#closed-form"
+			pos := cc.P.Decl(f).Pos()
+			sinP, _ := symMath("Sin", []poly{phi})
+			cosP, _ := symMath("Cos", []poly{phi})
+			sinL, _ := symMath("Sin", []poly{lam})
+			cosL, _ := symMath("Cos", []poly{lam})
+			one := polyConst(ratInt(1))
+			root := symSqrt(one.add(symMul(esP, symMul(sinP, sinP)), -1))
+			invRoot, ok := symInv(root)
+			if !ok {
+				c.Unk(rule, cons, pos, "the reference formula has no term (1/sqrt)")
+				continue
+			}
+			N := symMul(aP, invRoot)
+			want := [3]poly{
+				symMul(symMul(N.add(hh, 1), cosP), cosL),
+				symMul(symMul(N.add(hh, 1), cosP), sinL),
+				symMul(symMul(N, one.add(esP, -1)).add(hh, 1), sinP),
+			}
+			bad := ""
+			for i := 0; i < 3 && bad == ""; i++ {
+				if !res[i].equal(want[i]) && !symRationalEqual(res[i], want[i]) {
+					bad = fmt.Sprintf("%s' = %s; the geocentric %s of (λ, φ, h) on the datum's ellipsoid is %s", axis[i], short(res[i].canon()), axis[i], short(want[i].canon()))
+				}
+			}
+			if bad != "" {
+				c.Bad(rule, cons, pos, "%s", bad)
+			} else {
+				c.OK(rule, cons, pos, "equals (N + h)·cosφ·cosλ, (N + h)·cosφ·sinλ, (N·(1 − e²) + h)·sinφ with N = a/sqrt(1 − e²·sin²φ), term for term")
+			}
+		}
+		_ = closed
+		m.it.stub = convStub
+	}
+	// ---- when may the shift be skipped?  Only between datums that agree in everything: kind,
+	// ellipsoid and every shift parameter.  Pairs of references that differ in exactly one of these
+	// must go through geocentric coordinates (two conversions); a pair that was skipped must return
+	// the position unchanged.
+	{
+		base3 := [3]string{"P9", "P10", "P11"}
+		base7 := [7]string{"P21", "P22", "P23", "P24", "P25", "P26", "P27"}
+		val["p30"], val["p31"] = 6.3e6, 2.5
+		type pairT struct {
+			what, src, dst string
+			differ         bool
+		}
+		ell := "+proj=longlat +a=P7 +rf=P8 "
+		pairs := []pairT{
+			{"two references with the same three shift values and the same ellipsoid", ell + "+towgs84=" + strings.Join(base3[:], ",") + " +no_defs", ell + "+towgs84=" + strings.Join(base3[:], ",") + " +no_defs", false},
+			{"the same three shift values on ellipsoids of different size", ell + "+towgs84=" + strings.Join(base3[:], ",") + " +no_defs", "+proj=longlat +a=P30 +rf=P8 +towgs84=" + strings.Join(base3[:], ",") + " +no_defs", true},
+		}
+		for k := 0; k < 3; k++ {
+			v := base3
+			v[k] = "P31"
+			pairs = append(pairs, pairT{fmt.Sprintf("three-value shifts that differ in value %d only", k+1), ell + "+towgs84=" + strings.Join(base3[:], ",") + " +no_defs", ell + "+towgs84=" + strings.Join(v[:], ",") + " +no_defs", true})
+		}
+		for k := 0; k < 7; k++ {
+			v := base7
+			v[k] = "P31"
+			pairs = append(pairs, pairT{fmt.Sprintf("seven-value shifts that differ in value %d only", k+1), ell + "+towgs84=" + strings.Join(base7[:], ",") + " +no_defs", ell + "+towgs84=" + strings.Join(v[:], ",") + " +no_defs", true})
+		}
+		consS := cc.P.FuncName(whole) + "#skipped-only-between-equal-datums"
+		badS, unkS := "", ""
+		for _, pr := range pairs {
+			if badS != "" || unkS != "" {
+				break
+			}
+			ds, why1 := datumOf(pr.src)
+			dd, why2 := datumOf(pr.dst)
+			if why1 != "" || why2 != "" {
+				unkS = pr.what + ": the references are not interpretable: " + why1 + why2
+				break
+			}
+			labels[ds], labels[dd] = "source", "destination"
+			steps = nil
+			cc.Evals(1)
+			res, why := m.it.Call(whole, nil, []oval{oPtr{ds}, oPtr{dd}, oSym{polyVar("lam")}, oSym{polyVar("phi")}, oSym{polyVar("hh")}}, 0)
+			switch {
+			case strings.HasPrefix(why, "panic:"):
+				badS = pr.what + ": the shift panics: " + why
+			case why != "" || len(res) < 3:
+				unkS = pr.what + ": the shift is not interpretable: " + why
+			case pr.differ && len(steps) != 2:
+				badS = fmt.Sprintf("%s: the position goes through %d conversions between geodetic and geocentric coordinates, not two — datums that differ are treated as equal and the shift is skipped", pr.what, len(steps))
+			case len(steps) == 0:
+				for k, in := range []string{"lam", "phi", "hh"} {
+					if got, ok := symOf(res[k]); !ok || !got.equal(polyVar(in)) {
+						badS = fmt.Sprintf("%s: the shift is skipped but ordinate %d comes back as %s", pr.what, k+1, showVal(res[k]))
+					}
+				}
+			}
+		}
+		switch {
+		case badS != "":
+			c.Bad(rule, consS, pos, "%s", badS)
+		case unkS != "":
+			c.Unk(rule, consS, pos, "%s", unkS)
+		default:
+			c.OK(rule, consS, pos, "%d pairs of references: equal datums may skip the shift and then return the position unchanged; datums differing in the ellipsoid or in any single shift value go through geocentric coordinates", len(pairs))
+		}
+	}
 	if ruleState != "" {
 		cons := cc.P.FuncName(whole) + "#datums-unchanged"
 		if after := showVal(d7) + "|" + showVal(d3); after != before {
